@@ -134,3 +134,25 @@ def c03(p, obs):
         if rf.keys_api and 'ok' not in keys and keys.get('err') not in ('NotImplementedError',):
             out.append(('keys_refused', {'impl': keys}))
     return out
+
+
+def c14(p, obs):
+    """catch drops exactly the failing examples: iteration and items() against the reference"""
+    import gen
+    out = []
+    if obs.get('build') != 'ok':
+        return out
+    ops = gen.ops_of(p)
+    if not any(o in ops for o in ('catch', 'prefetch', 'filterLazy', 'filterEager')):
+        return out
+    rf = _ref(p)
+    if rf is None:
+        return out
+    want = canon_stream(rf.stream)
+    if p['op'] != 'cycle' and obs['iter'] != want:
+        out.append(('catch_stream', {'impl': obs['iter'], 'ref': want}))
+    if rf.keys is not None and rf.stream[1] is None and obs['items']['err'] is None:
+        wantk = [canon((k, v)) for k, v in zip(rf.keys, rf.stream[0])]
+        if obs['items']['vals'] != wantk:
+            out.append(('catch_items', {'impl': obs['items']['vals'], 'ref': wantk}))
+    return out
